@@ -161,9 +161,9 @@ CONF = {
         "require_classes": ["exact-model", "membership-change", "pop", "refresh:autoinj", "clipped", "render-fault", "q<n", "concurrent-adders", "add-before-cycle-checked", "frame-fills-buffer-height"],
     },
     "C17": {
-        "rule": "cases = sequential scenarios with BarQueueAfter links (70% of bars), chains, pop mode, removal, aborts, manual and injected auto refresh; non-trivial = a successor created after its predecessor finished (before or after the hand-over frame), or a predecessor with >=2 successors, or a chain of >=3; distinct by FNV-64 of the scenario JSON",
+        "rule": "cases = sequential scenarios (3 of 4) with BarQueueAfter links (70% of bars), chains, pop mode, removal, aborts, manual and injected auto refresh, and concurrent scenarios (1 of 4: one client creates the bars while others finish them and request frames, real ticker or injected ticks, history invariants only); non-trivial = a successor created after its predecessor finished (before or after the hand-over frame), or a predecessor with >=2 successors, or a chain of >=3; distinct by FNV-64 of the scenario JSON",
         "assumptions": GO_ASSUME + SCHED_ASSUME,
         "tiers": tiers(8, 2000, 16, 40000),
-        "require_classes": ["queued", "exact-model", "chain>=3", "successor-after-predecessor-finished", "refresh:autoinj", "add-requests-frame", "multi-successor", "late-successor", "late-successor-replaces-displayed-predecessor", "late-successors>=2-same-predecessor"],
+        "require_classes": ["queued", "exact-model", "chain>=3", "successor-after-predecessor-finished", "refresh:autoinj", "add-requests-frame", "multi-successor", "late-successor", "late-successor-replaces-displayed-predecessor", "late-successors>=2-same-predecessor", "concurrent", "concurrent-multi-successor", "refresh:autort"],
     },
 }
